@@ -218,6 +218,8 @@ def install():
     _cft.ThreadPoolExecutor = ExecutorDispatch
     _mp.Process = ProcessTripwire
     _threading.Thread.start = _thread_start
+    from . import sync as _sync
+    _sync.install()
 
 
 def activate(world, knobs):
